@@ -28,7 +28,7 @@ class RunEnd(BaseException):
 
 class Task:
     __slots__ = ("id", "role", "name", "proc", "lock", "done", "pred", "waiting", "ident", "error",
-                 "prio", "started", "on_done", "kind", "deferred", "timed")
+                 "prio", "started", "on_done", "kind", "deferred", "timed", "killed")
 
     def __init__(self, tid, role, name, proc, kind):
         self.id = tid
@@ -48,6 +48,7 @@ class Task:
         self.on_done = None
         self.deferred = False
         self.timed = False
+        self.killed = False
 
     def __repr__(self):
         return f"<Task {self.id} {self.name}>"
